@@ -42,4 +42,35 @@ theorem sps_float_nonneg (spq : Int) (qpm : ℚ) (h1 : 0 ≤ spq) (h2 : 0 ≤ qp
   have := rne53_mono h4
   rwa [rounding_rne53.zero] at this
 
+/-- exact half-step ties round UP also in the float computation: when the real product `t·s` is exactly
+`k + 1/2` (0 ≤ k < 2^51) the product, the sum with 0.5 and the truncation are all exact, so
+`quantize_to_step` returns `k + 1` — no tolerance window applies to a tie the doubles hit exactly -/
+theorem qstep_float_tie_up (t s : ℚ) (k : ℤ) (h0 : 0 ≤ k) (hlt : k < 2 ^ 51)
+    (htie : t * s = (k : ℚ) + 1 / 2) :
+    qstepR rne53 (1 / 2) t s = k + 1 := by
+  have hR := rounding_rne53
+  have hk : (2 * k + 1).natAbs ≤ 2 ^ 53 := by omega
+  have h1 : rne53 (t * s) = (k : ℚ) + 1 / 2 := by
+    have := hR.exact_half_int (by norm_num) (2 * k + 1) hk
+    rw [htie]
+    have e : (k : ℚ) + 1 / 2 = ((2 * k + 1 : ℤ) : ℚ) / 2 := by push_cast; ring
+    rw [e]; exact this
+  have h2 : rne53 (1 - 1 / 2 : ℚ) = 1 / 2 := by
+    have : (1 - 1 / 2 : ℚ) = 1 / 2 := by norm_num
+    rw [this]; exact hR.half (by norm_num)
+  have h3 : rne53 (((k + 1 : ℤ) : ℚ)) = ((k + 1 : ℤ) : ℚ) :=
+    hR.exact_int_le (by norm_num) (k + 1) (by omega)
+  unfold qstepR
+  rw [h1, h2]
+  have e : (k : ℚ) + 1 / 2 + 1 / 2 = ((k + 1 : ℤ) : ℚ) := by push_cast; ring
+  rw [e, h3]
+  apply truncR_eq_of_floor
+  · have : (0 : ℚ) ≤ ((k + 1 : ℤ) : ℚ) := by exact_mod_cast (by omega : (0 : ℤ) ≤ k + 1)
+    exact this
+  · exact le_refl _
+  · linarith
+
+example : qstepR rne53 (1 / 2) (1 / 2) 93 = 47 := by
+  have := qstep_float_tie_up (1 / 2) 93 46 (by norm_num) (by norm_num) (by norm_num)
+  simpa using this
 end NSV.C01
